@@ -20,13 +20,15 @@ import sys
 import time
 
 ROOT = "/verif"
-REPO = "/repo"
-BUILD = os.path.join(ROOT, "build")
+# VERIF_REPO: run the checks against a scratch worktree of the repository (mutation testing)
+# instead of /repo; build outputs then go to a separate directory.
+REPO = os.environ.get("VERIF_REPO", "/repo").rstrip("/") or "/repo"
+BUILD = os.path.join(ROOT, "build") if REPO == "/repo" else os.path.join(ROOT, "build", "alt-" + re.sub(r"[^A-Za-z0-9]+", "_", REPO).strip("_"))
 COQ = os.path.join(ROOT, "coq")
 HARNESS = os.path.join(ROOT, "harness")
 BIN = os.path.join(BUILD, "bin")
-REPLAYS = os.path.join(ROOT, "replays")
-EVIDENCE = os.path.join(ROOT, "evidence")
+REPLAYS = os.path.join(ROOT, "replays") if REPO == "/repo" else os.path.join(BUILD, "replays")
+EVIDENCE = os.path.join(ROOT, "evidence") if REPO == "/repo" else os.path.join(BUILD, "evidence")
 NCPU = os.cpu_count() or 4
 
 GOENV = {
@@ -90,6 +92,14 @@ class Lock:
         self.f.close()
 
 
+class GlobalLock(Lock):
+    """Lock shared by runs against different repositories (they share /verif/harness/go.mod)."""
+
+    def __init__(self, name="build"):
+        os.makedirs(os.path.join(ROOT, "build"), exist_ok=True)
+        self.path = os.path.join(ROOT, "build", "." + name + ".glock")
+
+
 def write_if_changed(path, content):
     old = None
     if os.path.exists(path):
@@ -114,7 +124,7 @@ def harness_gomod():
     reps = "\n".join(l for l in src.splitlines() if l.startswith("replace "))
     extra = ""
     mod = ("module verifharness\n\ngo 1.13\n\nrequire (%s\n\tmassnet.org/mass-wallet v0.0.0\n%s)\n\n"
-           "replace massnet.org/mass-wallet => /repo\n%s\n" % (reqs, extra, reps))
+           "replace massnet.org/mass-wallet => %s\n%s\n" % (reqs, extra, REPO, reps))
     write_if_changed(os.path.join(HARNESS, "go.mod"), mod)
     # go.sum: the repository's own, plus whatever the harness added earlier
     sums = set()
@@ -127,7 +137,7 @@ def harness_gomod():
 
 def go_build(names, race=False):
     """Build harness commands from /repo's current working tree with the verif tag."""
-    with Lock("go"):
+    with GlobalLock("go"):
         harness_gomod()
         os.makedirs(BIN, exist_ok=True)
         outs = []
@@ -229,7 +239,7 @@ def coq_prepare():
 
 def coq_make(targets=None, timeout=3000):
     """Full .vo build (never -vos). targets: list of .vo paths relative to coq/, or None for all."""
-    with Lock("coq"):
+    with GlobalLock("coq"):
         coq_prepare()
         cmd = ["make", "-j%d" % NCPU] + (targets or [])
         t0 = time.time()
